@@ -132,40 +132,12 @@ Definition agrees_model (x : coo Z) (op : c10op) (r : c10res) : bool :=
    failing input shows the statement false without it).  0 = inside the domain. *)
 Definition unpruned (x : coo Z) : bool := negb (prunedb Z.eqb x).
 
-Definition other_singleton (sh : shape) (ax : nat) : bool :=
-  existsb (fun d => d =? 1) (remove_nth sh ax).
-
 Definition clause_of (x : coo Z) (op : c10op) : Z :=
-  let sh := c_shape x in
-  let nd := Z.of_nat (length sh) in
   match op with
-  | OpSort axis desc =>
-    match norm_axis nd axis with
-    | None => if nd =? 1 then 13 else 0                       (* sort_1d_axis_unchecked *)
-    | Some ax =>
-      if (nd =? 1) && (nth 0 sh 0 =? 1) then 1                (* D18_sort_len1_1d *)
-      else if nth ax sh 0 =? 0 then 2                          (* D18_sort_len0_axis *)
-      else 0
-    end
-  | OpArg maxm axis kd =>
-    match axis with
-    | None => if size sh =? 0 then 4                           (* D17_arg_zero_size *)
-              else if unpruned x then 7 else 0                 (* arg_unpruned_tie_with_fill *)
-    | Some a =>
-      match norm_axis nd a with
-      | None => 0
-      | Some ax =>
-        if (nd =? 1) && (a <? 0) then 3                        (* D17_arg_1d_negative_axis *)
-        else if nth ax sh 0 =? 0 then 4                        (* D17_arg_zero_size *)
-        else if (nd =? 1) && kd then 12                        (* D17_arg_1d_keepdims *)
-        else if negb kd && other_singleton sh ax then 5        (* D17_arg_squeeze_other_singleton *)
-        else if kd && (a <? 0) then 6                          (* D17_arg_keepdims_negative_axis *)
-        else if unpruned x then 7 else 0
-      end
-    end
+  | OpSort _ _ => 0
+  | OpArg _ _ _ => if unpruned x then 7 else 0                 (* arg_unpruned_tie_with_fill *)
   | OpUniqueValues => if unpruned x then 8 else 0              (* unique_values_unpruned *)
-  | OpUniqueCounts =>
-    if unpruned x then 10 else 0                               (* unique_counts_unpruned *)
+  | OpUniqueCounts => if unpruned x then 10 else 0             (* unique_counts_unpruned *)
   | OpNonzero | OpArgwhere | OpWhere => if (c_fill x =? 0) && unpruned x then 11 else 0   (* nonzero_unpruned *)
   end.
 
